@@ -75,6 +75,8 @@ def judge_query(rec, be, ticks, tick, h, case_fn):
     g = bisect.bisect_right(ticks, tick) - 1
     n = len(ticks)
     rec.ev()
+    if (tick + h) % 3 == 0:
+        harness.distract(rec)
     try:
         ts, idx = be.timestamp_at_tick(tick, start_iteration_index=h)
         raised = None
@@ -89,6 +91,8 @@ def judge_query(rec, be, ticks, tick, h, case_fn):
             rec.violation("valid-hint-rejected", f"timestamp_at_tick({tick}, start_iteration_index={h}) raised {raised}; the governing "
                           f"tempo event is index {g} >= hint (tempo ticks {ticks[:10]})", case_fn(), "valid-hint-rejected")
             return
+        if (tick + h) % 2:
+            harness.distract(rec)
         plain = be.timestamp_at_tick(tick)
         conv = be.timestamp_at_tick_no_optimize_return(tick)
         if conv != plain[0]:
